@@ -154,6 +154,36 @@ impl C13 {
                 }
             }
         }
+        // the library's own identity functor through the native path: the argument itself, witness = one
+        // singleton segment per node
+        if count_classes {
+            use open_hypergraphs::lax::functor::dyn_functor::Identity;
+            if let Some(o) = lib(ctx, "map_arrow_witness(Identity)", class, &input, || map_arrow_witness(&Identity, &lx)) {
+                match o {
+                    None => { ctx.check(false, "map_arrow_witness(Identity)/accepts-quotient-free/value/any", || json!({"input": input()})); }
+                    Some((img, wit)) => {
+                        ctx.count("law:native-identity-functor");
+                        if let Some(pl) = walk_lax(ctx, "map_arrow_witness(Identity)", class, &img, &input) {
+                            match (pl.strict(), seg_to_lists(&wit)) {
+                                (Ok((got, q)), Ok(segs)) => {
+                                    let shape = segs.len() == p.w.len() && segs.iter().all(|s| s.len() == 1 && s[0] < pl.w.len());
+                                    if ctx.check(shape, "map_arrow_witness(Identity)/one-singleton-segment-per-node/value/any", || json!({"input": input(), "observed": segs})) {
+                                        let mut a = got.clone();
+                                        let mut b = p.clone();
+                                        for (i, s) in segs.iter().enumerate() {
+                                            a.s.push(q[s[0]]);
+                                            b.s.push(i);
+                                        }
+                                        expect_iso(ctx, "map_arrow_witness(Identity)", "the-argument-with-witness-i-to-node-i", class, &a, &b, &input);
+                                    }
+                                }
+                                _ => { ctx.check(false, "map_arrow_witness(Identity)/result-quotientable/value/any", || json!({"input": input()})); }
+                            }
+                        }
+                    }
+                }
+            }
+        }
         ctx.sample(class, || json!({"functor": format!("{:?}", spec), "f": show(p)}));
     }
 }
@@ -186,6 +216,8 @@ impl Monitor for C13 {
             ("class:op_image_composite", 20),
             ("class:op_image_spider_only", 20),
             ("law:native-equals-strict-path", 200),
+            ("law:native-identity-functor", 200),
+            ("class:refusal_with_label_conflicting_pairs", 30),
             ("events:witness_segments_checked", 500),
         ]
     }
@@ -203,7 +235,12 @@ impl Monitor for C13 {
                 if r.chance(1, 5) && !p.w.is_empty() {
                     let n = p.w.len();
                     let k = r.range(1, 3);
-                    let q: Vec<(usize, usize)> = (0..k).map(|_| { let a = r.below(n); let c: Vec<usize> = (0..n).filter(|&i| p.w[i] == p.w[a]).collect(); (a, *r.pick(&c)) }).collect();
+                    // label-consistent pairs, or (one time in three) arbitrary ones -- then the diagram cannot even be quotiented
+                    let free = r.chance(1, 3);
+                    let q: Vec<(usize, usize)> = (0..k).map(|_| { let a = r.below(n); let c: Vec<usize> = (0..n).filter(|&i| free || p.w[i] == p.w[a]).collect(); (a, *r.pick(&c)) }).collect();
+                    if q.iter().any(|&(a, b)| p.w[a] != p.w[b]) {
+                        ctx.class("refusal_with_label_conflicting_pairs");
+                    }
                     self.refusal(ctx, &spec, &p, q);
                 } else {
                     self.native(ctx, "random", &spec, &p);
